@@ -386,13 +386,18 @@ func (r *runner) readBack(data []byte) map[string]interface{} {
 						break
 					}
 					got = append(got, r.refFromRec(&rr))
-					if n%3 == 0 {
+					// one other read between two steps of the walk, of a different kind each time, so that the walk
+					// crosses block and section boundaries right after a log block / another ref block was opened
+					switch n % 4 {
+					case 0:
 						if it2, err := rd.SeekLog("", math.MaxUint64); err == nil {
 							var lr reftable.LogRecord
 							it2.NextLog(&lr)
 							it2.NextLog(&lr)
 						}
+					case 1:
 						reftable.ReadLogAt(rd, rr.RefName, math.MaxUint64)
+					case 2:
 						reftable.ReadRef(rd, rr.RefName)
 					}
 					if len(got) > len(want)+5 {
